@@ -91,7 +91,8 @@ pub fn run_explorer_ext(
         // split the remaining wall budget fairly among the remaining configurations
         let now = Instant::now();
         let remaining = deadline.saturating_duration_since(now);
-        let share = remaining / (nspecs - si) as u32;
+        // (a configuration may take up to a third of what is left: the cost estimate that orders them is rough)
+        let share = (remaining / (nspecs - si) as u32).max(remaining / 3);
         let limits = Limits { deadline: Some(now + share.max(Duration::from_millis(200))), ..Default::default() };
         let (st, viols) = explore::explore(prop, &spec.cfg, &spec.prefix, &spec.alphabet, spec.depth, checker, &limits);
         eprintln!(
